@@ -8,7 +8,10 @@ What is DECIDED BY THE RUN (`harness/cmd/reflect/run06.go`): that the Go entry p
 non-Must entry point, and which failures are recovered runtime faults handed out as the error.
 Termination and fault freedom of the Go code are NOT proved.
 
-What the registry/recompose model of `Reflect/Registry.lean` (C16) gives, proved here:
+The level of this sub-check is EXPLORATION. The theorems below are about the MODEL's registry (Go types
+as finite trees, no user composer functions; Lean functions are total by construction) — they say
+that the model has no panic case left in registration, not that the Go code terminates or is free
+of faults:
 
 * `registration_never_faults`: in the model of the code as it is now, registering ANY type on a
   recomposer with ANY history does not panic (since /repo b19f06c `indexType` has a case for every
@@ -16,7 +19,8 @@ What the registry/recompose model of `Reflect/Registry.lean` (C16) gives, proved
   is not a value of `GoType`; there the Go code recursed for ever until /repo 25154ae (finding
   `C06rec-self-embedding`, fixed; `self_embedding_guarded_in_source` pins the repaired source fact and
   fails on the source before the commit);
-* `index_total`: every struct type of the model has a field index;
+* `index_total`: every struct type of the model has a field index (little more than unfolding the
+  definition of the model's `indexType`, which has a case for every field);
 * `failure_is_history_independent`: whether recomposing a datum into a type without interface slots
   fails does not depend on what the recomposer has seen before (C16);
 * `entry_points_recover`: `(*Recomposer).Recompose` and `NewRecomposer` carry the deferred recover that
